@@ -5,12 +5,12 @@ ID = "C11"
 LEVEL = "exploration"
 RULE = ("cases: spec without soft constraints (fixed grammars with computed repetitions + random constraints incl. nested quantifiers that rebind "
         "scopes, selectors, raising sub-expressions; harvested specs) x search run, plus targeted histories (evaluate T; edit below T through the public "
-        "API; evaluate again; evaluate a structurally equal tree with different repetition grouping - parsed vs fuzzed; evaluate after slicing). Every "
-        "evaluation of the real evaluator is shadowed by a brand-new evaluator on constraint objects with emptied caches on a structural copy; compared: "
+        "API; evaluate again; evaluate a structurally equal tree with different repetition grouping - parsed vs fuzzed; evaluate after slicing; constraint objects asked directly twice). Every "
+        "evaluation of the real evaluator is shadowed by a brand-new evaluator on constraint objects with emptied caches on a structural copy, and by a third one whose memos never store; compared: "
         "fitness (exact float), verdict, failing parts as multiset of (path, symbol, cause). Non-trivial: >= 1 compared evaluation served from a cache; "
         "distinct by (spec, seed).")
 TIMEOUTS = {"quick": (60, 300), "thorough": (240, 2400)}
-MIN = {"quick": {"cases": 60, "nontrivial": 30, "observed": {"shadow_compared": 3000, "shadow_compared_cache_hit": 150, "targeted_histories": 150}},
+MIN = {"quick": {"cases": 60, "nontrivial": 30, "observed": {"shadow_compared": 3000, "shadow_compared_cache_hit": 150, "targeted_histories": 150, "shadow_compared_uncached": 3000, "direct_constraint_histories": 300}},
        "thorough": {"cases": 1500, "nontrivial": 800, "observed": {"shadow_compared": 300000}}}
 ASSUMPTIONS = ["suggestions (randomised repairs) are not compared", "specs with soft constraints are excluded (their scores depend on history by design)"]
 
@@ -64,7 +64,7 @@ def run_case(c):
             return f_.grammar, list(f_.constraints)
         try:
             f = Fandango(spec, use_stdlib=False, lazy=lazy)
-            shadow.begin_run(build, every=3)
+            shadow.begin_run(build, every=1)
         except Exception as e:
             return {"status": "ok", "stats": {"spec_rejected": 1}, "nontrivial": False}
     else:
@@ -78,7 +78,7 @@ def run_case(c):
         def build():
             f_, _ = harvest.try_load(c["file"])
             return f_.grammar, list(f_.constraints)
-        shadow.begin_run(build, every=5)
+        shadow.begin_run(build, every=2)
         spec = c["file"]
     try:
         try:
@@ -130,12 +130,48 @@ def run_case(c):
                         list(ev.evaluate_individual(cp))
                 except Exception as e:
                     stats["history_raised:" + type(e).__name__] += 1
+            # ---- constraint objects asked directly (the route repairs and Fandango.parse take, past the evaluator's own
+            # memo): first answer, the answer served from the constraint's memo, and brand-new objects must coincide
+            def fsig(fit):
+                return (fit.success, fit.fitness(), getattr(fit, "solved", None), getattr(fit, "total", None),
+                        shadow.failing_signature(fit.failing_trees))
+            for t in pop[:6]:
+                for con, fresh_con, unc_con in zip(f.constraints, shadow.STATE["shadow_constraints"], shadow.STATE["uncached_constraints"]):
+                    if isinstance(con, SoftValue):
+                        continue
+                    try:
+                        st_ = random.getstate()
+                        first = fsig(con.fitness(t))
+                        again = fsig(con.fitness(t))
+                        shadow.clear_caches(fresh_con)
+                        fresh = fsig(fresh_con.fitness(copy.deepcopy(t)))
+                        shadow.NoStore.lookups = 0
+                        try:
+                            unc = fsig(unc_con.fitness(copy.deepcopy(t)))
+                        except shadow.UncachedBudget:
+                            unc = first
+                            stats["direct_uncached_abandoned_budget"] += 1
+                        random.setstate(st_)
+                    except Exception as e:
+                        stats["direct_raised:" + type(e).__name__] += 1
+                        continue
+                    stats["direct_constraint_histories"] += 1
+                    def same(x, y):
+                        sx, sy = shadow.comparable(x[4], y[4])
+                        return x[:4] == y[:4] and sx == sy
+                    if not (same(first, again) and same(first, fresh) and unc[:4] == first[:4]):
+                        names = ["first answer", "answer served from the memo", "brand-new constraint object", "memoisation switched off"]
+                        vals = [first, again, fresh, unc]
+                        diff = [f"{n_}: success={v_[0]} fitness={v_[1]} solved/total={v_[2]}/{v_[3]} failing={v_[4][:2]}" for n_, v_ in zip(names, vals)]
+                        violations.append({"what": f"constraint `{con.format_as_spec()}` asked directly about one tree answers differently: " + " | ".join(diff),
+                                           "mech": None, "tree": str(t)[:200], "spec": spec if c["kind"] == "gen" else c["file"]})
+                        break
     finally:
         shadow.end_run()
     for m in shadow.MISMATCHES[:5]:
         violations.append({"what": f"evaluation differs from a fresh evaluator: {m['what']} (served from cache: {m['cache_hit']})",
                            "mech": None, "tree": m["tree"], "spec": spec if c["kind"] == "gen" else c["file"]})
-    for k in ("shadow_compared", "shadow_compared_cache_hit"):
+    for k in ("shadow_compared", "shadow_compared_cache_hit", "shadow_compared_uncached", "shadow_uncached_abandoned_budget"):
         stats[k] = hooks.COUNTS[k] - before.get(k, 0)
     for k in hooks.COUNTS:
         if k.startswith("shadow_failed"):
